@@ -9,6 +9,9 @@ ALL = [f'C{i:02d}' for i in range(1, 21)]
 NOT_YET = 'not claimed yet: model/theorem/correspondence for this property are still being built (see DESIGN.md §8 for the order of work)'
 NA_REASON = {}
 
+import subprocess
+HOOKS = subprocess.run(['git', '-C', '/repo', 'log', '--grep=^hook:', '--format=%h'], stdout=subprocess.PIPE, text=True).stdout.split()
+
 checks = []
 for pid in ALL:
     if pid not in PROPS:
@@ -34,7 +37,7 @@ m = {
         'guard': 'icy_engine_verif',
         'enable': 'RUSTFLAGS="--cfg icy_engine_verif" (set in harness/.cargo/config.toml; the harness depends on /repo by path)',
         'baseline_off_cmd': 'cd /repo && cargo test --workspace --no-fail-fast --offline',
-        'source_commits': [],
+        'source_commits': HOOKS,
         'add_only': True,
     },
     'engines': [{
